@@ -13,6 +13,7 @@ import (
 	"bytes"
 	"crypto/ed25519"
 	crand "crypto/rand"
+	"crypto/sha256"
 	"encoding/binary"
 	"encoding/hex"
 	"encoding/json"
@@ -68,8 +69,9 @@ type zvwWPlan struct {
 	Streams   [][]zvwWIt        `json:"streams"` // abstract streams exported by TLC
 	Groups    map[string][]int  `json:"groups"`  // dispatch group -> all codes of the group (from TLC)
 	GroupOf   map[string]string `json:"group_of"`
-	Sweep     bool              `json:"sweep"`  // every code 0..255 in every frame shape
-	Random    int               `json:"random"` // number of random / grammar-derived streams
+	RespSizes map[string][]int  `json:"resp_sizes"` // response size class -> every size of the class (from TLC)
+	Sweep     bool              `json:"sweep"`      // every code 0..255 in every frame shape
+	Random    int               `json:"random"`     // number of random / grammar-derived streams
 	MaxLen    int               `json:"maxlen"`
 	PipeEvery int               `json:"pipe_every"` // every n-th stream runs over a net.Pipe instead of the in-memory connection
 	Replays   []zvwWReplay      `json:"replays"`
@@ -84,13 +86,15 @@ type zvwWSt struct {
 
 // zvwWLabel is what was observed for one whole stream (independent of how the server reads its input).
 type zvwWLabel struct {
-	Items []zvwWIt `json:"items"`
-	Nrep  int      `json:"nrep"` // response frames written (a trailing incomplete frame counts as one)
-	Nrel  int      `json:"nrel"` // pending waits released from a second connection
-	Pan   bool     `json:"pan"`
-	Big   bool     `json:"big"`
-	Conc  int      `json:"conc"`  // connections served by the same server at the same time (1 = this one alone)
-	Kinds []string `json:"kinds"` // conc > 1 (lock step): kind of the response to the i-th frame
+	Items   []zvwWIt `json:"items"`
+	Nrep    int      `json:"nrep"` // response frames written (a trailing incomplete frame counts as one)
+	Nrel    int      `json:"nrel"` // pending waits released from a second connection
+	Pan     bool     `json:"pan"`
+	Big     bool     `json:"big"`
+	Sized   int      `json:"sized"`   // requests whose response content the harness knows (sized responses of the underlying agent)
+	SizedOK int      `json:"sizedok"` // ... of which arrived as intact frames with that content, in request order
+	Conc    int      `json:"conc"`    // connections served by the same server at the same time (1 = this one alone)
+	Kinds   []string `json:"kinds"`   // conc > 1 (lock step): kind of the response to the i-th frame
 }
 
 type zvwWRec struct {
@@ -212,6 +216,7 @@ type zvwWEnv struct {
 	cert   *ssh.Certificate // certificate for held[0]
 	pmu    sync.Mutex
 	poison map[string]bool
+	sized  map[string]int // request -> size of the response the underlying agent gives to it
 	rnd    *mrand.Rand
 	n      int
 }
@@ -220,7 +225,7 @@ var zvwWSockSeq int
 var zvwWSockMu sync.Mutex
 
 func zvwNewWEnv(base string, rnd *mrand.Rand, remote bool, tool string) *zvwWEnv {
-	e := &zvwWEnv{rnd: rnd, poison: map[string]bool{}}
+	e := &zvwWEnv{rnd: rnd, poison: map[string]bool{}, sized: map[string]int{}}
 	zvwWSockMu.Lock()
 	zvwWSockSeq++
 	sock := filepath.Join(base, fmt.Sprintf("a%d.sock", zvwWSockSeq))
@@ -247,6 +252,15 @@ func zvwNewWEnv(base string, rnd *mrand.Rand, remote bool, tool string) *zvwWEnv
 		if hit { // the underlying agent goes away on this request
 			e.px.ArmAt("close", len(e.px.Frames())+1)
 		}
+	}
+	e.px.Rewrite = func(req, reply []byte) []byte {
+		e.pmu.Lock()
+		n, ok := e.sized[string(req)]
+		e.pmu.Unlock()
+		if ok { // the underlying agent answers this request with a response of exactly n bytes
+			return zvwSizedReply(req, n)
+		}
+		return reply
 	}
 	acc := make(chan struct{})
 	go func() {
@@ -275,6 +289,29 @@ func zvwNewWEnv(base string, rnd *mrand.Rand, remote bool, tool string) *zvwWEnv
 	e.shim = shim
 	e.srv = &server{ShimAgent: shim, pivtoolpath: tool, remote: remote}
 	return e
+}
+
+// zvwSizedReply: the n response bytes the underlying agent gives to req (a pattern derived from the request).
+func zvwSizedReply(req []byte, n int) []byte {
+	out := make([]byte, n)
+	h := sha256.Sum256(req)
+	for i := 0; i < n; i += len(h) {
+		copy(out[i:], h[:])
+		h[0]++
+		h[i%len(h)] ^= byte(i >> 5)
+	}
+	return out
+}
+
+// zvwRespSize reads the response size off the variant name of a sized item ("resp-<n>"), -1 when there is none.
+func zvwRespSize(it zvwWCItem) int {
+	var n int
+	if it.It.K == "frame" && len(it.It.Aux) > 1 && it.It.Aux[0] == 'r' {
+		if _, err := fmt.Sscanf(it.Var, "resp-%d", &n); err == nil {
+			return n
+		}
+	}
+	return -1
 }
 
 func (e *zvwWEnv) close() {
@@ -404,11 +441,12 @@ func zvwXcryptoPanics(body []byte) (pan bool) {
 }
 
 type zvwWGen struct {
-	env    *zvwWEnv
-	r      *mrand.Rand
-	groups map[string][]int
-	small  bool // keep every body small (streams whose allocation is measured)
-	rot    map[string]int
+	env       *zvwWEnv
+	r         *mrand.Rand
+	groups    map[string][]int
+	small     bool // keep every body small (streams whose allocation is measured)
+	rot       map[string]int
+	respSizes map[string][]int
 }
 
 func (g *zvwWGen) size(max int) int {
@@ -595,6 +633,21 @@ func (g *zvwWGen) concrete(it zvwWIt) zvwWCItem {
 		case c == 35: // unknown body: waited code of the immediate class plus trailing bytes
 			w := 40 + r.Intn(216)
 			body, ci.Var = append([]byte{35, byte(w)}, zvwRndBytes(r, 1+r.Intn(20))...), fmt.Sprintf("wait-%d-extra", w)
+		case len(it.Aux) > 1 && it.Aux[0] == 'r': // the underlying agent answers with a response of a size of this class
+			body = append([]byte{byte(c)}, zvwRndBytes(r, 12)...)
+			cls := it.Aux
+			if g.small && (cls == "r16m" || cls == "rover") {
+				cls = "r64k" // (streams whose allocation is measured stay small; never happens for exported streams)
+				ci.It.Aux = cls
+			}
+			sizes := g.respSizes[cls]
+			if len(sizes) == 0 {
+				sizes = map[string][]int{"rtiny": {0, 1, 2, 5}, "r4k": {4091, 4092, 4093, 4094, 4095, 4096, 4097, 4098},
+					"r64k": {65531, 65532, 65533, 65534, 65535, 65536, 65537, 65538, 65539, 65540},
+					"r16m": {16777212, 16777213, 16777214, 16777215, 16777216}, "rover": {16777217}}[cls]
+			}
+			g.rot[cls]++
+			ci.Var = fmt.Sprintf("resp-%d", sizes[g.rot[cls]%len(sizes)])
 		case it.Aux == "ufail":
 			body = append([]byte{byte(c)}, zvwRndBytes(r, 12)...)
 			g.env.pmu.Lock()
@@ -650,8 +703,8 @@ type zvwWResult struct {
 
 func (e *zvwWEnv) poisoned(items []zvwWCItem) bool {
 	for _, it := range items {
-		if it.It.Aux == "ufail" {
-			return true
+		if it.It.Aux == "ufail" || it.It.Aux == "rover" || it.It.Aux == "r16m" {
+			return true // (after a 16 MiB response the environment is rebuilt as well: memory)
 		}
 	}
 	return false
@@ -887,6 +940,23 @@ loop:
 	res.lab.Pan = res.pan != nil
 	res.lab.Big = measure && res.alloc >= 1<<20
 	res.lab.Conc, res.lab.Kinds = 1, []string{}
+	// responses whose content is known: intact frames with exactly that content, in request order
+	ri := 0
+	for _, it := range items {
+		n := zvwRespSize(it)
+		if n < 0 || len(it.b) <= 4 {
+			continue
+		}
+		res.lab.Sized++
+		want := zvwSizedReply(it.b[4:], n)
+		for ri < len(res.replies) {
+			ri++
+			if bytes.Equal(res.replies[ri-1], want) {
+				res.lab.SizedOK++
+				break
+			}
+		}
+	}
 	return res
 }
 
@@ -967,7 +1037,8 @@ func zvwShapesOf(c int) []zvwWIt {
 	case "wait":
 		return []zvwWIt{f("1", "none", "none"), f("n", "valid", "imm"), f("n", "valid", "pend"), f("n", "unknown", "imm")}
 	}
-	return []zvwWIt{f("1", "none", "none"), f("n", "unknown", "none"), f("n", "unknown", "ufail")}
+	return []zvwWIt{f("1", "none", "none"), f("n", "unknown", "none"), f("n", "unknown", "ufail"),
+		f("n", "unknown", "rtiny"), f("n", "unknown", "r4k"), f("n", "unknown", "r4k"), f("n", "unknown", "r64k"), f("n", "unknown", "r64k")}
 }
 
 var zvwWTerms = []zvwWIt{
@@ -1143,6 +1214,30 @@ func TestVerifWire(t *testing.T) {
 			jobs = append(jobs, zvwWJob{tid: fmt.Sprintf("s%d_tb", c), conc: []zvwWCItem{tb}})
 		}
 	}
+	if plan.Sweep {
+		// every response size of every class, between two list requests (plus twice in a row for the 4 KiB / 64 KiB classes)
+		list := zvwWIt{K: "frame", Code: 11, Len: "1", Body: "none", Aux: "none"}
+		classes := []string{"rtiny", "r4k", "r64k", "r16m", "rover"}
+		for _, cls := range classes {
+			for si, n := range plan.RespSizes[cls] {
+				mk := func(k int) zvwWCItem {
+					c := []int{27, 64, 100, 200, 255, 20}[(si+k)%6]
+					body := append([]byte{byte(c)}, []byte(fmt.Sprintf("sz-%s-%d-%d-%d", cls, n, k, zvwWSockSeq))...)
+					ci := zvwWCItem{It: zvwWIt{K: "frame", Code: c, Len: "n", Body: "unknown", Aux: cls}, Var: fmt.Sprintf("resp-%d", n), b: zvwWFrame(body)}
+					ci.Hex = hex.EncodeToString(ci.b)
+					return ci
+				}
+				l := zvwWCItem{It: list, Var: "codeonly", b: zvwWFrame([]byte{11})}
+				l.Hex = hex.EncodeToString(l.b)
+				e := zvwWCItem{It: zvwWTerms[0], Var: "eof"}
+				st := []zvwWCItem{l, mk(0), l, e}
+				if cls == "r4k" || cls == "r64k" {
+					st = []zvwWCItem{mk(0), mk(1), l, mk(2), e}
+				}
+				jobs = append(jobs, zvwWJob{tid: fmt.Sprintf("z%s_%d", cls, n), conc: st})
+			}
+		}
+	}
 	for i := 0; i < plan.Random; i++ {
 		j := zvwWJob{tid: fmt.Sprintf("r%d", i), dirB: true}
 		// the first draw of the stream's generator decides whether it contains an oversize item
@@ -1200,6 +1295,8 @@ func TestVerifWire(t *testing.T) {
 		if l.Pan {
 			stats["panics"]++
 		}
+		stats["sized"] += l.Sized
+		stats["sizedok"] += l.SizedOK
 		stats["streams"]++
 		stats["streams_"+mode]++
 		if len(samples) < 6 && len(items) > 1 && stats["streams"]%97 == 1 {
@@ -1231,7 +1328,7 @@ func TestVerifWire(t *testing.T) {
 		if *env == nil {
 			*env = zvwNewWEnv(base, verifh.NewRand("wire-env", int64(wid*100000+ji)), true, "")
 		}
-		g := &zvwWGen{env: *env, r: rnd, groups: plan.Groups, rot: map[string]int{}, small: measure}
+		g := &zvwWGen{env: *env, r: rnd, groups: plan.Groups, rot: map[string]int{}, small: measure, respSizes: plan.RespSizes}
 		for k := range g.groups {
 			g.rot[k] = ji + len(k)
 		}
@@ -1255,6 +1352,9 @@ func TestVerifWire(t *testing.T) {
 		for _, it := range items {
 			if it.It.Aux == "ufail" && len(it.b) > 4 {
 				(*env).poison[string(it.b[4:])] = true
+			}
+			if n := zvwRespSize(it); n >= 0 && len(it.b) > 4 {
+				(*env).sized[string(it.b[4:])] = n
 			}
 			if it.It.K == "frame" && (it.It.Code == 18 || it.It.Code == 19 || it.It.Code == 22) {
 				dirty = true // may remove the held keys or lock the agent
